@@ -80,7 +80,17 @@ func responderText(r interface{}) string {
 
 func implDecodeRequest(et uint8, b []byte) (res string, resp envelope.Responder) {
 	p := safely(func() {
-		val, r, err := binary.Default.DecodeRequest(wire.EnvelopeType(int8(et)), bytes.NewReader(b))
+		// a ReaderAt has no cursor: every other bytes.Reader has been read from before (to its end, or
+		// to within a byte or two of it), which says nothing about what ReadAt will find
+		src := bytes.NewReader(b)
+		if decAlt++; decAlt%2 == 0 {
+			n := len(b) - decAlt/2%3
+			if n < 0 {
+				n = 0
+			}
+			io.ReadFull(src, make([]byte, n))
+		}
+		val, r, err := binary.Default.DecodeRequest(wire.EnvelopeType(int8(et)), src)
 		if err != nil {
 			res = "err"
 			return
@@ -107,7 +117,7 @@ func (s *structBody) Decode(r stream.Reader) error {
 	return err
 }
 
-var seekAlt, plainAlt int
+var seekAlt, plainAlt, decAlt int
 
 func implReadRequest(et uint8, b []byte, sizes []int, seekable bool) (res string, rw stream.ResponseWriter) {
 	p := safely(func() {
@@ -345,5 +355,5 @@ func runC12(c *checker, r *rng.R) {
 	c.flush()
 	runC12Server(c, r)
 	c.flush()
-	c.rep.Rule = "envelopes: names 1..2^16 bytes (non-UTF8, ':'-multiplexed), types 0..127, seqids at int32 boundaries, random struct bodies × 3 framings × {DecodeRequest, ReadRequest non-seekable (plain, with a Seek method that always fails like a pipe, behind a bufio.Reader, from a bytes.Buffer) under random segmentation incl. 1-byte/zero-length first reads, ReadRequest seekable, every other source already read from (the request starts at offset 1–3)} × right/wrong expected type, replies through both responder APIs; plus mutated envelopes and random bytes for classification agreement; plus internal/envelope.Server over internal/multiplex (through the verif hook): enveloped Calls in both framings to known / unknown services and methods and a failing handler — the answer must echo name and sequence id, be a Reply with the handler's value or an Exception; the same through envelope.Client + multiplex.Client; responses retained across later requests and a server shared by 8 goroutines (a response must stay what it was); every case non-trivial; distinct by canonical text"
+	c.rep.Rule = "envelopes: names 1..2^16 bytes (non-UTF8, ':'-multiplexed), types 0..127, seqids at int32 boundaries, random struct bodies × 3 framings × {DecodeRequest (every other bytes.Reader already read to its end or nearly), ReadRequest non-seekable (plain, with a Seek method that always fails like a pipe, behind a bufio.Reader, from a bytes.Buffer) under random segmentation incl. 1-byte/zero-length first reads, ReadRequest seekable, every other source already read from (the request starts at offset 1–3)} × right/wrong expected type, replies through both responder APIs; plus mutated envelopes and random bytes for classification agreement; plus internal/envelope.Server over internal/multiplex (through the verif hook): enveloped Calls in both framings to known / unknown services and methods and a failing handler — the answer must echo name and sequence id, be a Reply with the handler's value or an Exception; the same through envelope.Client + multiplex.Client; responses retained across later requests and a server shared by 8 goroutines (a response must stay what it was); every case non-trivial; distinct by canonical text"
 }
